@@ -43,3 +43,8 @@ check("C12", "fault_enumeration",
       "runtime fault injection with strace on the unmodified binary (SIGKILL at the entry of, or an errno from, every file syscall of Put, enumerated by a dry run and confirmed from each injected run's trace), RLIMIT_FSIZE short writes, hostile ReadSeekers, random SIGKILLs; a fresh-open verifier evaluates the statement's gates after every fault",
       "Exhaustive at syscall granularity for the listed scenarios (new / overwrite / re-store with sharing entry / stale index entry / three pre-damaged outputs) and sizes: every boundary between two file operations of Put is a crash point, every operation is made to fail with the errnos that apply to it. The evidence carries the landing table (scenario x syscall x kind).",
       "Trusted: strace 6.1 injection semantics (signal delivered at syscall entry aborts the syscall; confirmed by the partial files observed); the child locks the main thread so that counts are deterministic. Process stops only: no page-cache loss. Pre-damaged scenarios assert only the checksum-verified lookups, as the statement says.")
+
+check("C11", "exploration",
+      "runtime monitor: multi-process x multi-goroutine stress on one cache directory with seeded delays at the cache.* hooks; every reader verifies regenerable self-describing payloads (hash, size, ownership); shared-memory 'Put completed' flags make 'must hit' decidable online; quiescent final sweep; Go race detector in every worker",
+      "Rounds on fresh directories (first-creation races) with 3-8 processes x 4-8 goroutines over 8 identical-content and 8 differing-content ids, every fourth round with one writer SIGKILLed midway. The evidence reports operations, lookups that overlapped a Put of the same id (from the merged CLOCK_MONOTONIC op log) and hook hits per point.",
+      "Trusted: payload regeneration in gen/payload; flag protocol (set after Put returned, sampled before the lookup is invoked). Interleavings are sampled, not enumerated.")
